@@ -1,8 +1,8 @@
 CONSTANTS
- MaxLen = 4
+ MaxLen = 2
  Alpha = "all"
- Variant = "waits"
+ Variant = "pinned"
  Pols = {"all", "g1", "g2"}
 SPECIFICATION Spec
-INVARIANT Refines
+INVARIANT EmitPrediction
 CHECK_DEADLOCK FALSE
